@@ -4,6 +4,7 @@ import (
 	"bytes"
 	"fmt"
 	"io"
+	"reflect"
 	"testing"
 
 	"github.com/bluenviron/gomavlib/v3/pkg/x25"
@@ -130,6 +131,20 @@ func validFrame(t *rapid.T, di *dialectInfo, o gen.FrameOpts, key *[32]byte) (re
 	val := gen.Value(t, lay)
 	f.ID = id
 	f.Payload = lay.Encode(val, f.V2)
+	if f.V2 && rapid.IntRange(0, 14).Draw(t, "all_zero_message") == 0 {
+		// a message whose fields are all zero: its v2 payload is one zero byte, and a sender that strips that one
+		// too (length 0) says the same thing
+		val = reflect.New(lay.Type).Interface()
+		f.Payload = lay.Encode(val, true)
+		if rapid.Bool().Draw(t, "length_zero") {
+			f.Payload = []byte{}
+		}
+		f.Checksum = f.ChecksumFor(lay.CRCExtra)
+		if f.Signed() && key != nil {
+			f.Sig = f.SignatureFor(*key)
+		}
+		return f, lay, val
+	}
 	if f.V2 && rapid.IntRange(0, 5).Draw(t, "untruncated") == 0 {
 		f.Payload = lay.EncodeFull(val, true) // legal: senders may skip truncation
 	}
